@@ -16,10 +16,30 @@ type StructCfg struct {
 }
 
 // FuncCfg: one function to translate.
+// ExternCfg: a struct type declared in another package (its declaration is not read:
+// the field types come from the configuration and are part of the trusted base).
+type ExternCfg struct {
+	Coq    string      `json:"coq"`
+	Fields [][2]string `json:"fields"` // (name, Go type) of the fields kept, in record order
+	Ignore []string    `json:"ignore"` // fields a composite literal may set and that are dropped
+}
+
+// SkipStmt: a statement dropped on purpose, matched by its exact source text.
+type SkipStmt struct {
+	Text string `json:"text"`
+	Note string `json:"note"`
+}
+
 type FuncCfg struct {
 	Recv string `json:"recv"` // receiver type name without * and type parameters ("" = plain function)
 	Name string `json:"name"`
 	Coq  string `json:"coq"` // name of the generated definition (default: Name)
+	// State: a parameter that is threaded through as the state instead of the receiver
+	// (the function changes what the parameter refers to; the receiver is then read-only)
+	State string `json:"state"`
+	// LoopBody: the function is `for { … }`; the body of that loop is translated as ONE
+	// iteration (a step function); falling off its end = the state after the iteration
+	LoopBody bool `json:"loop_body"`
 }
 
 // Intrinsic: a call the translator does not look into.
@@ -35,7 +55,12 @@ type FuncCfg struct {
 //	kind oracle  unknown function: a parameter of every definition using it
 //	kind errtoken fmt.Errorf / errors.New: the format string as an error token
 //	kind sprintf fmt.Sprintf with a literal format of text and %s verbs on strings: concatenation
+//	kind input   a call whose result is an input of the function (a callback reading the
+//	             environment): a parameter `coq : type`; at most one call site per function
+//	kind emit    a call of a callback with outside effects only: the token `coq` is appended
+//	             to the list of emitted events, returned as the last result
 //	kind const   a constant: `coq`
+//	kind field   accessor method returning a part of its receiver: projection `coq`, update `set_coq`
 type Intrinsic struct {
 	Kind   string   `json:"kind"`
 	Coq    string   `json:"coq"`
@@ -61,7 +86,10 @@ type Config struct {
 	Globals    []string              `json:"globals"` // package-level var/const with initialiser, never assigned
 	Functions  []FuncCfg             `json:"functions"`
 	Intrinsics map[string]*Intrinsic `json:"intrinsics"`
-	Requires   []string              `json:"requires"` // further `From Verif Require Import` (earlier generated files)
+	Externs    map[string]ExternCfg  `json:"externs"`
+	SkipStmts  []SkipStmt            `json:"skip_stmts"`
+	RefTypes   []string              `json:"ref_types"` // Go types that are references: a local bound to a path of such a type is an alias of the path
+	Requires   []string              `json:"requires"`  // further `From Verif Require Import` (earlier generated files)
 }
 
 func loadConfig(path string) (*Config, error) {
